@@ -990,6 +990,13 @@ class WBEMConnection:  # pylint: disable=too-many-instance-attributes
             proxies=self.proxies,
         )  # init makes copies of mutable parameters
         for rec in self.operation_recorders:
+            # If logging has been activated for future connections, init has
+            # already added a log recorder. The copy of the recorder of this
+            # object takes its place.
+            # pylint: disable=protected-access,unidiomatic-typecheck
+            cpy._operation_recorders = [
+                r for r in cpy._operation_recorders
+                if type(r) is not type(rec)]
             cpy.add_operation_recorder(rec.copy())
         return cpy
 
